@@ -201,8 +201,110 @@ def operator_table(ck, b, nv):
     return progs
 
 
+def trust_labels(b, path):
+    rc, o, e = langlib.run_cmd([b.bin('nanoc'), path, '-o', path + '.tr.bin', '--trust-report'], 120)
+    labels = {}
+    import re
+    for m in re.finditer(r'^\s+(\w+)\(.*?\)\s*->\s*\w+\s+\[(\w+)\s*\]', (o + e).decode('utf-8', 'replace'), re.M):
+        labels[m.group(1)] = m.group(2)
+    try:
+        os.unlink(path + '.tr.bin')
+    except OSError:
+        pass
+    return labels
+
+
+def nanocore_part(ck, b, nv):
+    """Functions that `nanoc --trust-report` labels 'verified' must compute what the repository's own proved semantics
+    (formal/EvalFn.v, copied into NV/NanoCore on this run and extracted) assigns -- compared on the common domain (exact_eval)."""
+    rng = random.Random(ck.seed * 31 + 5)
+    B = [0, 1, -1, 2, 3, 7, -7, 10, 100, -100, 255, 2**31, -2**31, 2**32, progen.INT64_MAX, progen.INT64_MIN + 1]
+    cfg = progen.Cfg(cond_expr=True, boundary_ints=True)
+    nf = 60 if ck.thorough else 16
+    fns, calls = [], []
+    for i in range(nf):
+        g = progen.Gen(rng, cfg)
+        g.next_name = 100 + 20 * i
+        params = [(g.fresh(), rng.choice(['int', 'int', 'bool'])) for _ in range(rng.randrange(1, 4))]
+        ret = rng.choice(['int', 'int', 'bool'])
+        sc = dict(vars=[(x, t, False) for (x, t) in params], fns=[], fns_by_name={}, globals=[])
+        e = g.gen_expr(ret, 3, sc, pure=True)
+        name = g.fresh()
+        fns.append(dict(name=name, params=params, ret=ret, body=('ret', e), effect=False, expr=e))
+        for _ in range(6 if ck.thorough else 4):
+            args = [rng.choice(B) if t == 'int' else rng.random() < 0.5 for (_, t) in params]
+            calls.append((len(fns) - 1, args))
+    wit = {
+        'lang:nanocore-negative-division': (dict(name=90, params=[(91, 'int'), (92, 'int')], ret='int', body=('ret', ('bin', 'div', ('var', 91), ('var', 92))),
+                                                 effect=False, expr=('bin', 'div', ('var', 91), ('var', 92))), [-7, 2]),
+        'lang:nanocore-negative-modulo': (dict(name=93, params=[(94, 'int'), (95, 'int')], ret='int', body=('ret', ('bin', 'mod', ('var', 94), ('var', 95))),
+                                               effect=False, expr=('bin', 'mod', ('var', 94), ('var', 95))), [-7, 2]),
+        'lang:nanocore-overflow': (dict(name=96, params=[(97, 'int')], ret='int', body=('ret', ('bin', 'add', ('var', 97), ('num', 1))),
+                                        effect=False, expr=('bin', 'add', ('var', 97), ('num', 1))), [progen.INT64_MAX]),
+    }
+    wkeys = {}
+    for k, (f, args) in wit.items():
+        fns.append(f); calls.append((len(fns) - 1, args)); wkeys[len(calls) - 1] = k
+    body = []
+    for (fi, args) in calls:
+        f = fns[fi]
+        body.append(('print', True, ('call', f['name'], [('num', a) if t == 'int' else ('bool', a) for a, (_, t) in zip(args, f['params'])])))
+    prog = dict(globals=[], fns=fns + [dict(name=0, params=[], ret='int', body=lang_findings.seq(*(body + [('ret', ('num', 0))])), effect=True)], main=0)
+    lines = []
+    for (fi, args) in calls:
+        f = fns[fi]
+        env = ' '.join('(%x %s %s)' % (x, t, (progen.zs(a) if t == 'int' else ('1' if a else '0'))) for a, (x, t) in zip(args, f['params']))
+        # Ref binds parameters so that the last is newest; order is irrelevant here (distinct names)
+        lines.append('nc 200 (env %s) %s' % (env, progen.expr_sexp(f['expr'])))
+    ans = vlib.run_lines(nv, lines)
+    with langlib.Work('c02nc') as wd:
+        path = os.path.join(wd, 'nc.nano')
+        open(path, 'w').write(progen.to_nano(prog))
+        labels = trust_labels(b, path)
+        vm = langlib.run_vm(b, path, fuel=5_000_000)
+        nat = langlib.run_native(b, path, wd)
+    st = collections.Counter()
+    if vm['cls'] != 'exit' or nat['cls'] != 'exit':
+        ck.fail('c02:nanocore:engines-did-not-run', 'the NanoCore comparison program did not run: vm=%s native=%s' % (vm['cls'], nat['cls']),
+                dict(source=progen.to_nano(prog)[:3000], vm_err=vm['err'][-400:], native_err=nat['err'][-600:]))
+        return
+    vout, nout = vm['out'].decode().split('\n'), nat['out'].decode().split('\n')
+    def val(s):
+        f = s.split('=', 1)[1]
+        if f == 'none' or f == 'other':
+            return None
+        t, v = f.split(':')
+        return (str(int(v, 16)) if not v.startswith('-') else '-' + str(int(v[1:], 16))) if t == 'int' else ('true' if v == '1' else 'false')
+    for i, ((fi, args), a) in enumerate(zip(calls, ans)):
+        f = fns[fi]
+        ex, nc = [val(x) for x in a.split()]
+        label = labels.get(progen.fname(f['name']))
+        st['label:%s' % label] += 1
+        ck.count(('nc', progen.expr_sexp(f['expr']), tuple(args)), ex is not None)
+        rep = dict(function=progen.to_nano(dict(globals=[], fns=[f], main=0)), args=args, trust_label=label, nanocore_eval=nc, exact_eval=ex, vm=vout[i], native=nout[i])
+        if label != 'verified':
+            continue
+        key = wkeys.get(i)
+        for eng, got in (('vm', vout[i]), ('native', nout[i])):
+            if nc is not None and got != nc:
+                if ex is not None or key:
+                    ck.fail(key or 'c02:nanocore:s%d-%d:%s' % (ck.seed, i, eng),
+                            "function labelled 'verified' computes %s on the %s engine, formal/EvalFn.v assigns %s" % (got, eng, nc), dict(rep, engine=eng))
+                else:
+                    st['outside-common-domain-differs'] += 1
+            elif nc is not None:
+                st['agree'] += 1
+    # a function that prints is outside NanoCore (no output in formal/Semantics.v) yet main is labelled verified
+    if labels.get('main') == 'verified':
+        ck.fail('lang:nanocore-println-verified', "main contains (println ...) calls and is labelled 'verified' although formal/Semantics.v has no output",
+                dict(trust_labels=labels))
+    ck.extra['nanocore'] = dict(st)
+    ck.sample(dict(nanocore_case=lines[0], answer=ans[0], vm=vout[0]))
+
+
 def run(ck):
     b = ck.build('plain')
+    vlib.sync_nanocore()
     ck.gen(['gen_isa'])
     for k in ('ref_classes', 'engine_runs', 'tie_breaks', 'ties_ok', 'features'):
         ck.extra[k] = collections.Counter()
@@ -223,6 +325,7 @@ def run(ck):
         pid = 's%d-%d' % (ck.seed, i)
         progs.append((pid, p)); feats[pid] = dict(g.feat)
     check_programs(ck, b, nv, progs, feats, 'gen')
+    nanocore_part(ck, b, nv)
     ck.sample(dict(program=progen.to_nano(progs[0][1])[:1500], sexp=progen.to_sexp(progs[0][1])[:600]))
     ck.cov['rule'] = ('witness programs of every recorded finding + operator table (all binary/unary operators x pairs of INT64 boundary operands, '
                       'through identity calls so the C compiler cannot fold) + type-directed random programs (progen.py: effects in operands, '
@@ -235,6 +338,7 @@ def run(ck):
                    'extraction ExtrOcamlBasic only; extract/nvio.ml, nvio_z.ml, lang_driver.ml (S-expression reader)',
                    'tools/progen.py (generator + renderers), tools/langlib.py (runners), probes/nvm_dump.c',
                    'translator gen_isa (opcode numbers and operand kinds used by the compiler/VM models)',
+                   'NV/NanoCore/*.v = /repo/formal/{Syntax,Semantics,EvalFn,Determinism,Typing}.v copied on every run (From Stdlib -> From Coq, extraction directives commented out)',
                    'the C compiler and libc used by nanoc are modelled, not verified (NatSem: call arguments right-to-left, operands left-to-right)']
     ck.assumptions += ['division by zero and INT64_MIN / -1 are excluded from the stream (documented engine difference / hardware trap)',
                        'programs of the stream terminate within %d VM instructions' % FUEL_VM]
